@@ -650,6 +650,9 @@ class cst(exp):
     @_checkarg_numeric
     def __lshift__(self, n):
         if n._is_cst:
+            if n.value >= self.size:
+                # all bits are shifted out (and python would build a huge integer first)
+                return cst(0, self.size)
             return cst(self.value << n.value, self.size)
         else:
             return exp.__lshift__(self, n)
